@@ -107,8 +107,10 @@ def glslFilter : Name → Name → Name
       glslFilter rest (buf ++ escapeChar r)
 
 /-- Names starting with the reserved prefix `gl_` (and the bare `gl`, whose collision-suffixed
-forms are `gl_1`, …) are prefixed with `gen_` (fix 2cb9fba). -/
-def glslReservedPrefix (r : Name) : Bool := r == "gl".toList || "gl_".toList.isPrefixOf r
+forms are `gl_1`, …) are prefixed with `gen_` (fix 2cb9fba); so are the prefixes of the names the writer
+generates without the namer, `_group…` and `_immediates_binding_…` (fix after 2aac2e6). -/
+def glslReservedPrefix (r : Name) : Bool :=
+  r == "gl".toList || "gl_".toList.isPrefixOf r || "_group".toList.isPrefixOf r || "_immediates_binding_".toList.isPrefixOf r
 
 def glslSanitize (name : Name) : Name :=
   if name.isEmpty then unnamed else
